@@ -163,7 +163,7 @@ def replay_damp(chk, e, rng):
                 if w > 0:
                     if np.abs(g[depth == 0]).max() > 64 * eps * np.abs(g0).max():
                         err = "outermost ring not driven to zero"
-                    edge = np.abs(g0[depth == w - 1]).max()
+                    edge = np.abs(g0[depth == min(w - 1, int(depth.max()))]).max()     # (zones from opposite sides may overlap on small grids)
                     if np.abs(g[depth < w]).max() > edge * (1 + 8 * eps):
                         err = "a zone value exceeds the largest magnitude on the zone's inner edge"
                 if not np.array_equal(g[depth >= w], g0[depth >= w]):
